@@ -497,6 +497,12 @@ static void op_engine(void) {
 			d_string_free(out, true);
 			break;
 		}
+		case 15:	/* the caller edits its own DString (engine created with sub 1) between conversions */
+			if (!slot[s].own) { status = ST_BAD_REQUEST; return; }
+			d_string_erase(slot[s].own, 0, -1);
+			d_string_append_c_array(slot[s].own, rq.a[0].p, rq.a[0].len);
+			field("", 0);
+			break;
 		default:
 			status = ST_BAD_REQUEST;
 	}
